@@ -110,7 +110,7 @@ def run_faults(base, case, seed, chunk, rng, max_points):
     try:
         cset = fresh(base, case, seed)
         pre = c18.snap_model(base)
-        t0 = int(time.time())
+        t0 = int(time.time()) - 2      # kernel timestamps use a coarse clock that may lag time.time()
         run0 = fsx.record(c18.merge_fn(base, case, cset), base, chunk=chunk)
         final = c18.snap_model(base)
         ops0 = c18.trace_ops(run0.trace)
@@ -122,7 +122,7 @@ def run_faults(base, case, seed, chunk, rng, max_points):
             kmodel = sum(1 for c in run0.trace[:idx] if c.ok)
             for mode in ("crash", "eio"):
                 cset = fresh(base, case, seed)
-                t1 = int(time.time())
+                t1 = int(time.time()) - 2
                 r = fsx.run_with_fault(c18.merge_fn(base, case, cset), base, idx, mode, chunk=chunk)
                 snap = c18.snap_model(base)
                 # only a failed rename has cleanup code behind it (do_link unlinks its '#new')
